@@ -198,7 +198,7 @@ def case_text(rs, build, cfg, srcs, main, acts=None, wraps=None, sched=None, buf
     if logreads:
         # the harness prints, and the model predicts, how many bytes the scanner has asked its input
         # routine for when each action starts (meaningful with 1-byte reads from a single source)
-        lines.append('logreads 1')
+        lines.append('logreads %d' % (2 if logreads == 2 else 1))      # 2: every read request (`rq n`) instead
         lines.append('interactive %d' % (1 if build['flags'].get('interactive') else 0))
     if cfg.array and cfg.backend != 'cxx':        # (%array is overridden, with a warning, for C++ scanners)
         lines.append('yylmax %d' % (cfg.yylmax or 8192))
@@ -268,6 +268,29 @@ def run_model(casefile, spec=False, timeout=60):
     except subprocess.TimeoutExpired:
         return {'rc': -999, 'out': [], 'err': 'timeout'}
     return {'rc': rc, 'out': out.split('\n'), 'err': err[-2000:]}
+
+
+def run_bufmodel(casefile, timeout=60):
+    """the buffer-level machine (Runtime/Buf.lean) on the emitted tables: `rq n` and `m rule hex` lines"""
+    try:
+        rc, out, err = flexrun.run_driver(['bufrun', casefile], timeout=timeout)
+    except subprocess.TimeoutExpired:
+        return {'rc': -999, 'out': [], 'err': 'timeout'}
+    return {'rc': rc, 'out': [l for l in out.split('\n') if l], 'err': err[-2000:]}
+
+
+def buf_view(real_out):
+    """what the buffer-level machine predicts of a real trace: read requests and (rule, text) of tokens"""
+    v = []
+    for l in real_out:
+        w = l.split(' ')
+        if w[0] == 'rq':
+            v.append(l)
+        elif w[0] == 'm':
+            v.append('m %s %s' % (w[1], w[2]))
+        elif w[0] == 'fatal':
+            v.append(l)
+    return v
 
 
 def first_diff(a, b):
